@@ -158,6 +158,22 @@ def kind_of(p, K):
     return f
 
 
+def _with_pairs(fn_node, defs):
+    """single-assignment locals bound element-wise by `a, b = x, y` are temporaries too."""
+    stores: dict = {}
+    for n in ast.walk(fn_node):
+        if isinstance(n, ast.Name) and isinstance(n.ctx, (ast.Store, ast.Del)):
+            stores[n.id] = stores.get(n.id, 0) + 1
+    params = {a.arg for a in fn_node.args.posonlyargs + fn_node.args.args + fn_node.args.kwonlyargs}
+    out = dict(defs)
+    for n in ast.walk(fn_node):
+        if isinstance(n, ast.Assign) and len(n.targets) == 1 and isinstance(n.targets[0], ast.Tuple) and isinstance(n.value, ast.Tuple) and len(n.value.elts) == len(n.targets[0].elts):
+            for t, v in zip(n.targets[0].elts, n.value.elts):
+                if isinstance(t, ast.Name) and stores.get(t.id) == 1 and t.id not in params and t.id not in out:
+                    out[t.id] = v
+    return out
+
+
 # ---------------------------------------------------------------------------------------------- canonical expressions
 class Sym:
     """Canonical expressions and formulas of one function body."""
@@ -169,7 +185,7 @@ class Sym:
         self.roles = {}
         for k, v in (roles or {}).items():
             self.roles[k] = ast.parse(v, mode="eval").body if isinstance(v, str) else v
-        self.defs = defs if defs is not None else (single_assignments(fn_node) if fn_node is not None else {})
+        self.defs = defs if defs is not None else (_with_pairs(fn_node, single_assignments(fn_node)) if fn_node is not None else {})
         self.kinds = kinds or {}  # canonical subject text -> f(class name) -> True / False / None
         self.consts = consts or {}  # canonical text -> python value
         self.call_eval = call_eval  # f(call ast, sym) -> the canonical expression (ast.Constant for constants) the call returns | None
@@ -179,7 +195,20 @@ class Sym:
         sym = self
 
         class E(ast.NodeTransformer):
+            shadow: tuple = ()  # names bound by an enclosing comprehension: its own variables, not the function's locals
+
+            def _comp(self, n):
+                saved = self.shadow
+                self.shadow = saved + tuple(x.id for g in n.generators for x in ast.walk(g.target) if isinstance(x, ast.Name))
+                self.generic_visit(n)
+                self.shadow = saved
+                return n
+
+            visit_ListComp = visit_SetComp = visit_GeneratorExp = visit_DictComp = _comp
+
             def visit_Name(self, n):
+                if n.id in self.shadow:
+                    return n
                 if n.id in sym.roles:
                     return copy.deepcopy(sym.roles[n.id])
                 if isinstance(n.ctx, ast.Load) and n.id in sym.defs and _depth < 8:
@@ -538,9 +567,10 @@ class Paths(Sym):
                 dq.append(m)
         return seen
 
-    def reaches(self, starts, targets, assume=None) -> bool:
+    def reaches(self, starts, targets, assume=None, stop=()) -> bool:
+        """Some path from `starts` gets to a target (without passing a node of `stop`)."""
         ts = set(targets)
-        return bool(ts & self._reach(starts, ts, assume))
+        return bool(ts & self._reach(starts, ts | set(stop), assume))
 
     def necessary(self, starts, targets, assume=None) -> frozenset:
         """Conjuncts implied by every path from `starts` to one of `targets` (edges that cannot be avoided)."""
